@@ -841,6 +841,33 @@ func (vc *VC) dispatchObligations(fr *Frame, c *Contract) {
 				}
 			}
 		}
+		// `freshmap:M`: every map updated in this loop was made inside loop M (a map per iteration of M, not one
+		// that outlives it and carries entries over)
+		for n := range names {
+			if !strings.HasPrefix(n, "freshmap:") || o.Status != "unsat" {
+				continue
+			}
+			var lm *loopInfo
+			for _, l := range fr.loops {
+				if fmt.Sprintf("freshmap:%d", l.ordinal) == n {
+					lm = l
+				}
+			}
+			for b := range li.blocks {
+				for _, instr := range b.Instrs {
+					mu, ok := instr.(*ssa.MapUpdate)
+					if !ok {
+						continue
+					}
+					mk, isMake := mu.Map.(*ssa.MakeMap)
+					if lm == nil || !isMake || !lm.blocks[mk.Block()] {
+						o.Status = "sat"
+						o.Model = fmt.Sprintf("the map updated at %s is not created inside loop %s: its entries survive from one iteration of that loop to the next", vc.w.Fset.Position(mu.Pos()).String(), strings.TrimPrefix(n, "freshmap:"))
+						o.Output = o.Model
+					}
+				}
+			}
+		}
 		vc.obls = append(vc.obls, o)
 	}
 }
